@@ -351,6 +351,10 @@ func (w *World) buildResponse(req *http.Request, a *Ans, now time.Time) (*http.R
 		m["clocu"], m["clocso"] = a.CLocU-1, a.CLocSO
 	}
 	nhop := 0
+	if a.Hop == 2 && a.Fr != 2 && a.Fr != 3 {
+		// this response declares a field hop-by-hop that every other response carries end to end
+		add("Connection", "X-Multi")
+	}
 	if a.Hop == 1 {
 		w.mu.Lock()
 		w.nhop++
@@ -436,6 +440,9 @@ func (w *World) buildResponse(req *http.Request, a *Ans, now time.Time) (*http.R
 	m["fr"], m["body"] = a.Fr, a.Body
 	// remember end-to-end content for byte-faithfulness comparisons
 	e2e := resp.Header.Clone()
+	if a.Hop == 2 && a.Fr != 2 && a.Fr != 3 {
+		e2e.Del("X-Multi")
+	}
 	for _, h := range []string{"Connection", "X-Hop-A", "Keep-Alive", "Proxy-Authenticate",
 		"Proxy-Authentication-Info", "Upgrade", "Te", "Proxy-Connection", "Transfer-Encoding", "Trailer"} {
 		e2e.Del(h)
@@ -449,6 +456,15 @@ func (w *World) buildResponse(req *http.Request, a *Ans, now time.Time) (*http.R
 	w.tagNS[tag] = a.CCP == 1 && contains(a.Fl, "no-store")
 	w.mu.Unlock()
 	return resp, m, tag, tok
+}
+
+func (w *World) sentBody(tok string) []byte {
+	w.mu.Lock()
+	defer w.mu.Unlock()
+	if sr := w.sent[tok]; sr != nil {
+		return sr.body
+	}
+	return nil
 }
 
 func (w *World) regDate(s string, t time.Time) {
